@@ -283,6 +283,7 @@ def run(tier):
     from . import c01
     c01.sha256(prog, rep)
     c01.k2_k3_k6(prog, rep)
+    c01.ctx_typestate(prog, rep, [UNIT, "alg/sha256.c"])
     variants = {"aws_sign_s3_headers": "hdr", "aws_sign_svc_headers": "hdr", "aws_sign_dynamodb_headers": "hdr", "aws_sign_s3_querystr": "qs"}
     for name, kind in variants.items():
         f = u.func(name)
